@@ -1,4 +1,5 @@
 import Cgm.Lemmas.AuditCmd
 import Cgm.Props.C06
 import Cgm.Props.C06b
+import Cgm.Props.C06c
 #audit_namespace Cg.C06
